@@ -119,7 +119,7 @@ def validate(traces, dev, label, conform=True):
     """Contract verdicts (FaultsJudge.tla) and model conformance (FaultsTrace.tla, Dev = dev) for all traces.
     Returns verdicts {id: (verdict, pos)}, keys {id: [(key, pos)]}, diffs {id: log}, TLC results."""
     consts_ = {"Dev": "{" + ",".join(f'"{d}"' for d in dev) + "}"}
-    chunk = max(40, min(600, -(-len(traces) // max(1, min(3, PAR // 2)))))
+    chunk = max(40, min(500, -(-len(traces) // 2)))
     parts = [traces[k:k + chunk] for k in range(0, len(traces), chunk)]
 
     def one(module, part, lab):
@@ -206,13 +206,13 @@ def run(tier, seed, replay=None):
     scheds = model_schedules(chk, tier)
     phases["enumerate_schedules"] = round(_t.time() - t0, 1)
     chk.extra["model_schedules_total"] = len(scheds)
-    cap = 120 if tier == "quick" else 4000
+    cap = 120 if tier == "quick" else 1000
     chosen = scheds if len(scheds) <= cap else rng.sample(scheds, cap)
     chk.exhaustive = len(chosen) == len(scheds)
     for i, (origin, sch) in enumerate(chosen):
         execute(sch, origin, W.TICKS[i % len(W.TICKS)], "control" if i % 3 == 2 else "fast")
         chk.replays += 1
-    n_rand = 120 if tier == "quick" else 4000
+    n_rand = 120 if tier == "quick" else 1000
     for i in range(n_rand):
         execute(W.random_schedule(rng), "random", W.TICKS[i % len(W.TICKS)], "control" if i % 4 == 3 else "fast")
 
